@@ -3,10 +3,14 @@
    on depth or operator count.
 
    Main results (end of file):
-     parse_print   : wf e -> follow_ok rest -> parse_model (print e ++ rest) = Ok (ast e, rest)
-     explain_ast   : wf e -> explain (ast e) = Ok (ref e)
+     parse_print   : wfx e -> follow_ok rest -> parse_model (print e ++ rest) = Ok (ast e, rest)
+     explain_ast   : wfx e -> explain (ast e) = Ok (ref e)
+     c08_expr_climb: wfx e -> follow_ok rest ->
+                     explain_model (parse_model (print e ++ rest)) = Ok (ref e, rest)
+     wf_wfx        : wf e -> wfx e            (the layered grammar is part of wfx)
      c08_expr      : wf e -> follow_ok rest ->
                      explain_model (parse_model (print e ++ rest)) = Ok (ref e, rest)
+     parse_model_total / explain_model_total : OutOfFuel never occurs, on any token list
      explain_binary_unfused : the fused operand recursion of [explain] is
                      "collectLogicalOperands / collectConcatOperands, then print each operand". *)
 From Coq Require Import List NArith Bool Arith Lia ZifyN ZifyNat ZifyBool.
@@ -214,7 +218,7 @@ Definition stopb (lvl : N) (rest : list item) : bool :=
   | t :: tl => (precedence_for_current t tl <=? lvl) && negb (it_tok t =? T_STRING)
   end.
 
-Definition rlvl (e : sexpr) : N := N.min (gp (level e)) 10.
+Definition rlvl (e : sexpr) : N := N.min (gp (redge e)) 10.
 
 Definition fits (p : N) (e : sexpr) : Prop :=
   match e with Bin op _ _ => p < gp (op_level op) | _ => True end.
@@ -295,6 +299,12 @@ Proof. destruct op; cbn; lia. Qed.
 
 Lemma level_bounds : forall e, (1 <= level e <= 9)%nat.
 Proof. destruct e; cbn; try lia. pose proof (op_level_bounds op). lia. Qed.
+
+Lemma redge_bounds : forall e, (1 <= redge e <= level e)%nat.
+Proof.
+  induction e; cbn [redge level]; try lia.
+  pose proof (op_level_bounds op). lia.
+Qed.
 
 (* ---- stop conditions ---- *)
 
@@ -475,50 +485,60 @@ Proof.
   change ((not_item lc :: print e1) ++ rest) with (not_item lc :: print e1 ++ rest).
   destruct m as [|m]; [lia|]. cbn [parse_expr]. rewrite parse_prefix_not.
   unfold parse_not. rewrite peek_print, (head_tok_paren e1 Hsp).
-  assert (Hr : rlvl (Not lc e1) = NOT_PREC) by reflexivity.
+  pose proof (redge_bounds e1) as Hb.
+  assert (Hr1 : rlvl (Not lc e1) <= NOT_PREC).
+  { unfold rlvl. cbn [redge]. unfold gp, NOT_PREC. lia. }
+  assert (Hr2 : rlvl (Not lc e1) <= rlvl e1).
+  { unfold rlvl. cbn [redge]. unfold gp. lia. }
   rewrite (IH 1%nat m NOT_PREC rest (ast e1, rest)).
   - cbn [bind]. apply pratt_loop_mono with n; [exact Hloop|lia].
   - destruct e1; try exact I. cbn [fits level] in *.
     pose proof (op_level_bounds op). unfold gp, NOT_PREC. lia.
-  - apply stopb_mono with (l := rlvl (Not lc e1)); [exact Hstop|].
-    rewrite Hr. unfold rlvl, gp, NOT_PREC. lia.
-  - apply stop_loop with (l := rlvl (Not lc e1)); [exact Hstop|]. rewrite Hr. lia.
+  - apply stopb_mono with (l := rlvl (Not lc e1)); [exact Hstop|exact Hr2].
+  - apply stop_loop with (l := rlvl (Not lc e1)); [exact Hstop|exact Hr1].
   - lia.
 Qed.
 
 Lemma main_neg : forall e1,
-  Main e1 -> (8 <= level e1)%nat -> Main (Neg e1).
+  Main e1 -> (forall op l r, e1 <> Bin op l r) -> Main (Neg e1).
 Proof.
-  intros e1 IH Hlvl n m p rest r _ Hstop Hloop Hm. cbn [print cost ast] in *.
+  intros e1 IH Hshape n m p rest r _ Hstop Hloop Hm. cbn [print cost ast] in *.
   change ((minus_item :: print e1) ++ rest) with (minus_item :: print e1 ++ rest).
   destruct m as [|m]; [lia|]. cbn [parse_expr].
-  assert (Hr : rlvl (Neg e1) = UNARY) by reflexivity.
+  pose proof (redge_bounds e1) as Hb.
+  assert (Hr1 : rlvl (Neg e1) <= UNARY).
+  { unfold rlvl. cbn [redge]. unfold gp, UNARY. lia. }
+  assert (Hr2 : rlvl (Neg e1) <= rlvl e1).
+  { unfold rlvl. cbn [redge]. unfold gp. lia. }
   rewrite parse_prefix_minus.
   - rewrite (IH 1%nat m UNARY rest (ast e1, rest)).
     + cbn [bind]. apply pratt_loop_mono with n; [exact Hloop|lia].
-    + destruct e1; try exact I. cbn [level] in Hlvl. pose proof (op_level_bounds op). lia.
-    + apply stopb_mono with (l := rlvl (Neg e1)); [exact Hstop|].
-      rewrite Hr. unfold rlvl, gp, UNARY. lia.
-    + apply stop_loop with (l := rlvl (Neg e1)); [exact Hstop|]. rewrite Hr. lia.
+    + destruct e1; try exact I. exfalso. eapply Hshape. reflexivity.
+    + apply stopb_mono with (l := rlvl (Neg e1)); [exact Hstop|exact Hr2].
+    + apply stop_loop with (l := rlvl (Neg e1)); [exact Hstop|exact Hr1].
     + lia.
   - rewrite peek_print. head_cases e1.
-  - destruct (stop_peeks _ _ Hstop) as (_ & _ & _ & H4); [rewrite Hr; unfold UNARY; lia|].
-    destruct e1; cbn [level] in Hlvl; try reflexivity.
+  - destruct (stop_peeks _ _ Hstop) as (_ & _ & _ & H4); [unfold UNARY in Hr1; lia|].
+    destruct e1; try reflexivity.
     + cbn [print app tl peek_is]. rewrite H4. apply andb_false_r.
-    + pose proof (op_level_bounds op). lia.
+    + exfalso. eapply Hshape. reflexivity.
 Qed.
 
 Lemma main_bin : forall op l r,
-  Main l -> Main r -> (op_level op <= level l)%nat -> (op_level op < level r)%nat ->
+  Main l -> Main r -> (op_level op <= redge l)%nat ->
+  ((op_level op < level r)%nat \/ is_not r = true) ->
   Main (Bin op l r).
 Proof.
   intros op l r IHl IHr Hl Hr n m p rest res Hfit Hstop Hloop Hm.
   cbn [print cost fits ast] in *.
   rewrite <- app_assoc. cbn [app].
   pose proof (op_level_bounds op) as Hb.
-  pose proof (level_bounds l) as Hbl. pose proof (level_bounds r) as Hbr.
-  assert (Hrl : rlvl (Bin op l r) = gp (op_level op)).
-  { unfold rlvl. cbn [level]. unfold gp. lia. }
+  pose proof (redge_bounds l) as Hbl. pose proof (redge_bounds r) as Hbr.
+  pose proof (level_bounds l) as Hbl'. pose proof (level_bounds r) as Hbr'.
+  assert (Hr1 : rlvl (Bin op l r) <= gp (op_level op)).
+  { unfold rlvl. cbn [redge]. unfold gp. lia. }
+  assert (Hr2 : rlvl (Bin op l r) <= rlvl r).
+  { unfold rlvl. cbn [redge]. unfold gp. lia. }
   set (k := Nat.max n (S (cost r))).
   apply (IHl (S k) m p (op_item op :: print r ++ rest) res).
   - apply fits_level. unfold gp in *. lia.
@@ -534,18 +554,19 @@ Proof.
     rewrite (IHr 1%nat k (gp (op_level op)) rest (ast r, rest)).
     + cbn [bind]. rewrite length_neq_suffix.
       apply pratt_loop_mono with n; [exact Hloop|unfold k; lia].
-    + apply fits_level. unfold gp. lia.
-    + apply stopb_mono with (l := rlvl (Bin op l r)); [exact Hstop|].
-      rewrite Hrl. unfold rlvl, gp. lia.
-    + apply stop_loop with (l := rlvl (Bin op l r)); [exact Hstop|]. rewrite Hrl. lia.
+    + destruct Hr as [Hr|Hr].
+      * apply fits_level. unfold gp. lia.
+      * destruct r; try discriminate Hr. exact I.
+    + apply stopb_mono with (l := rlvl (Bin op l r)); [exact Hstop|exact Hr2].
+    + apply stop_loop with (l := rlvl (Bin op l r)); [exact Hstop|exact Hr1].
     + unfold k. lia.
   - unfold k. lia.
 Qed.
 
-Lemma main_all : forall e, wf e -> Main e.
+Lemma main_all : forall e, wfx e -> Main e.
 Proof.
-  unfold wf.
-  induction e as [s|n|e1 IH|lc e1 IH|lc e1 IH|e1 IH|op l IHl r IHr]; intros H; cbn [wfb] in H.
+  unfold wfx.
+  induction e as [s|n|e1 IH|lc e1 IH|lc e1 IH|e1 IH|op l IHl r IHr]; intros H; cbn [wfxb] in H.
   - apply main_id, H.
   - apply main_num, H.
   - apply main_paren, IH, H.
@@ -553,12 +574,14 @@ Proof.
     apply main_not; [apply IH, H1|apply Nat.leb_le, H2|apply negb_true_iff, H3].
   - apply main_notcall, IH, H.
   - apply andb_prop in H as [H _]. apply andb_prop in H as [H1 H2].
-    apply main_neg; [apply IH, H1|apply Nat.leb_le, H2].
+    apply main_neg; [apply IH, H1|].
+    intros op l r E. subst e1. cbn [level is_not] in H2. rewrite orb_false_r in H2.
+    apply Nat.leb_le in H2. pose proof (op_level_bounds op). lia.
   - apply andb_prop in H as [H _]. apply andb_prop in H as [H H4].
     apply andb_prop in H as [H H3]. apply andb_prop in H as [H1 H2].
-    apply main_bin; [apply IHl, H1|apply IHr, H2|apply Nat.leb_le, H3|apply Nat.ltb_lt, H4].
+    apply main_bin; [apply IHl, H1|apply IHr, H2|apply Nat.leb_le, H3|].
+    apply orb_prop in H4 as [H4|H4]; [left; apply Nat.ltb_lt, H4|right; exact H4].
 Qed.
-
 Lemma cost_bound : forall e, (cost e <= 2 * length (print e))%nat.
 Proof.
   induction e; cbn [cost print length]; rewrite ?app_length; cbn [length]; lia.
@@ -576,14 +599,14 @@ Proof.
 Qed.
 
 Theorem parse_print : forall e rest,
-  wf e -> follow_ok rest -> parse_model (print e ++ rest) = Ok (ast e, rest).
+  wfx e -> follow_ok rest -> parse_model (print e ++ rest) = Ok (ast e, rest).
 Proof.
   intros e rest Hwf Hf. unfold parse_model.
   pose proof (follow_stop rest Hf) as Hs.
   pose proof (level_bounds e) as Hb.
   apply (main_all e Hwf 1%nat).
   - apply fits_level. unfold gp, LOWEST. lia.
-  - apply stopb_mono with (l := LOWEST); [exact Hs|]. unfold rlvl, gp, LOWEST. lia.
+  - apply stopb_mono with (l := LOWEST); [exact Hs|]. unfold rlvl, LOWEST. lia.
   - apply stop_loop with (l := LOWEST); [exact Hs|]. lia.
   - unfold fuel_for. rewrite app_length. pose proof (cost_bound e). lia.
 Qed.
@@ -804,14 +827,14 @@ Qed.
 Lemma ops_default : forall c e, (forall op l r, e <> Bin op l r) -> s_operands c e = [ref e].
 Proof. intros c e H. destruct e; try reflexivity. exfalso. eapply H. reflexivity. Qed.
 
-Theorem explain_ast_gen : forall e, wf e ->
+Theorem explain_ast_gen : forall e, wfx e ->
   explain (ast e) = Ok (ref e) /\
   m_ops_logical s_OR (ast e) = Ok (s_operands COr e) /\
   m_ops_logical s_AND (ast e) = Ok (s_operands CAnd e) /\
   (is_paren_concat e = false -> m_ops_concat (ast e) = Ok (s_operands CConcat e)).
 Proof.
-  unfold wf.
-  induction e as [s|n|e1 IH|lc e1 IH|lc e1 IH|e1 IH|op l IHl r IHr]; intros H; cbn [wfb] in H.
+  unfold wfx.
+  induction e as [s|n|e1 IH|lc e1 IH|lc e1 IH|e1 IH|op l IHl r IHr]; intros H; cbn [wfxb] in H.
   - repeat split; reflexivity.
   - assert (E : explain (ast (Num n)) = Ok (ref (Num n))).
     { cbn [ast explain ref]. unfold num_lit. destruct (n <? 9223372036854775808); reflexivity. }
@@ -908,15 +931,209 @@ Proof.
         unfold single. rewrite E'. reflexivity.
 Qed.
 
-Theorem explain_ast : forall e, wf e -> explain (ast e) = Ok (ref e).
+Theorem explain_ast : forall e, wfx e -> explain (ast e) = Ok (ref e).
 Proof. intros e H. apply (explain_ast_gen e H). Qed.
 
 (* ========================================================================================== *)
 (* E. the property *)
 
-Theorem c08_expr : forall e, wf e -> forall rest, follow_ok rest ->
+(* on layered trees the right edge is the level, and the layered grammar is part of [wfx] *)
+Lemma wf_redge : forall e, wf e -> redge e = level e.
+Proof.
+  unfold wf.
+  induction e as [s|n|e1 IH|lc e1 IH|lc e1 IH|e1 IH|op l IHl r IHr]; intros H; cbn [wfb] in H;
+    cbn [redge level]; try reflexivity.
+  - apply andb_prop in H as [H _]. apply andb_prop in H as [H1 H2].
+    apply Nat.leb_le in H2. rewrite (IH H1). lia.
+  - apply andb_prop in H as [H _]. apply andb_prop in H as [H1 H2].
+    apply Nat.leb_le in H2. rewrite (IH H1). lia.
+  - apply andb_prop in H as [H _]. apply andb_prop in H as [H H4].
+    apply andb_prop in H as [H _]. apply andb_prop in H as [_ H2].
+    apply Nat.ltb_lt in H4. rewrite (IHr H2). lia.
+Qed.
+
+Lemma wf_wfx : forall e, wf e -> wfx e.
+Proof.
+  unfold wfx.
+  induction e as [s|n|e1 IH|lc e1 IH|lc e1 IH|e1 IH|op l IHl r IHr]; intros H;
+    pose proof H as H0; unfold wf in H; cbn [wfb] in H; cbn [wfxb]; try exact H.
+  - apply IH, H.
+  - apply andb_prop in H as [H H3]. apply andb_prop in H as [H1 H2].
+    rewrite (IH H1), H2, H3. reflexivity.
+  - apply IH, H.
+  - apply andb_prop in H as [H H3]. apply andb_prop in H as [H1 H2].
+    rewrite (IH H1), H2, H3. reflexivity.
+  - apply andb_prop in H as [H H5]. apply andb_prop in H as [H H4].
+    apply andb_prop in H as [H H3]. apply andb_prop in H as [H1 H2].
+    rewrite (IHl H1), (IHr H2), H4, H5. rewrite (wf_redge l H1), H3. reflexivity.
+Qed.
+
+(* every reading of the precedence climb (layered or not) *)
+Theorem c08_expr_climb : forall e, wfx e -> forall rest, follow_ok rest ->
   explain_model (parse_model (print e ++ rest)) = Ok (ref e, rest).
 Proof.
   intros e Hwf rest Hf. rewrite (parse_print e rest Hwf Hf).
   unfold explain_model. cbn [bind]. rewrite (explain_ast e Hwf). reflexivity.
+Qed.
+
+(* the layered grammar *)
+Theorem c08_expr : forall e, wf e -> forall rest, follow_ok rest ->
+  explain_model (parse_model (print e ++ rest)) = Ok (ref e, rest).
+Proof. intros e Hwf. apply c08_expr_climb, wf_wfx, Hwf. Qed.
+
+(* ========================================================================================== *)
+(* F. the fuel chosen by [parse_model] is enough for EVERY token list: OutOfFuel never occurs
+      (so it is not an artefact that could hide a divergence from the fuel-less Go code), and the
+      parser never returns more tokens than it was given. *)
+
+Definition shorter (r : res P) (k : nat) : Prop :=
+  match r with
+  | Ok (_, ts') => (length ts' <= k)%nat
+  | OutOfFragment _ => True
+  | OutOfFuel => False
+  end.
+
+Definition pe_ok (n : nat) (pe : N -> list item -> res P) : Prop :=
+  forall p ts, (2 * length ts + 2 <= n)%nat -> shorter (pe p ts) (length ts).
+
+Lemma shorter_bind_ok : forall (r : res P) k (f : expr -> list item -> expr),
+  shorter r k -> shorter (bind r (fun '(o, ts) => Ok (f o ts, ts))) k.
+Proof. intros [[o ts]| |] k f H; cbn in *; auto. Qed.
+
+Lemma prefix_shorter : forall n pe cur rest,
+  pe_ok n pe -> (2 * length (cur :: rest) <= n)%nat ->
+  shorter (parse_prefix pe (cur :: rest)) (length rest).
+Proof.
+  intros n pe cur rest Hpe Hn. cbn [length] in Hn. unfold parse_prefix.
+  destruct (it_tok cur =? T_IDENT).
+  { unfold parse_identifier. repeat match goal with |- context [if ?c then _ else _] => destruct c end;
+      cbn; auto. }
+  destruct (it_tok cur =? T_NUMBER).
+  { unfold parse_number. repeat match goal with |- context [if ?c then _ else _] => destruct c end;
+      cbn; auto. }
+  assert (Hr : forall p, shorter (pe p rest) (length rest)) by (intros p; apply Hpe; lia).
+  destruct (it_tok cur =? T_MINUS).
+  { unfold parse_unary_minus.
+    destruct (peek_is rest T_INF); [exact I|].
+    destruct (peek_is rest T_NUMBER && peek_is (tl rest) T_COLONCOLON); [exact I|].
+    apply (shorter_bind_ok _ _ (fun o _ => EUnary UMinus o)), Hr. }
+  destruct (it_tok cur =? T_NOT).
+  { unfold parse_not.
+    destruct (peek_is rest T_LPAREN); apply (shorter_bind_ok _ _ (fun o _ => EUnary UNot o)), Hr. }
+  destruct (it_tok cur =? T_LPAREN); [|exact I].
+  unfold parse_grouped.
+  destruct (peek_is rest T_RPAREN); [exact I|].
+  destruct (peek_is rest T_SELECT || peek_is rest T_WITH || peek_is rest T_EXPLAIN); [exact I|].
+  specialize (Hr LOWEST). destruct (pe LOWEST rest) as [[o ts]| |]; cbn [bind shorter] in *; auto.
+  destruct (peek_is ts T_COMMA); [exact I|].
+  destruct ts as [|t ts']; [exact I|].
+  destruct (it_tok t =? T_RPAREN); cbn [shorter length] in *; [lia|exact I].
+Qed.
+
+Lemma infix_shorter : forall n pe lhs cur rest,
+  pe_ok n pe -> (2 * length (cur :: rest) <= n)%nat ->
+  shorter (parse_infix pe lhs (cur :: rest)) (length (cur :: rest)).
+Proof.
+  intros n pe lhs cur rest Hpe Hn. cbn [length] in *. unfold parse_infix.
+  destruct (tok_in (it_tok cur) binary_tokens).
+  { unfold parse_binary.
+    match goal with |- context [if ?c then _ else _] => destruct c end; [exact I|].
+    match goal with |- context [pe ?p rest] =>
+      pose proof (Hpe p rest) as Hr; destruct (pe p rest) as [[o ts]| |] end;
+      cbn [bind shorter] in *; try (apply Hr; lia); auto.
+    assert (length ts <= length rest)%nat by (apply Hr; lia). lia. }
+  repeat match goal with
+         | |- context [if ?c then _ else _] => destruct c
+         | |- context [match lhs with _ => _ end] => destruct lhs
+         end; cbn [shorter length]; auto; lia.
+Qed.
+
+Lemma fuel_enough : forall n,
+  pe_ok n (parse_expr n) /\
+  (forall p lhs ts, (2 * length ts + 1 <= n)%nat -> shorter (pratt_loop n p lhs ts) (length ts)).
+Proof.
+  induction n as [|n [IHe IHl]].
+  - split; [intros p ts H|intros p lhs ts H]; lia.
+  - split.
+    + intros p ts Hn. cbn [parse_expr].
+      destruct ts as [|cur rest]; [exact I|].
+      pose proof (prefix_shorter n (parse_expr n) cur rest IHe) as Hp.
+      cbn [length] in *.
+      destruct (parse_prefix (parse_expr n) (cur :: rest)) as [[l ts1]| |]; cbn [bind shorter] in *;
+        try (apply Hp; lia); auto.
+      assert (H1 : (length ts1 <= length rest)%nat) by (apply Hp; lia).
+      pose proof (IHl p l ts1) as Hl.
+      destruct (pratt_loop n p l ts1) as [[e ts2]| |]; cbn [shorter] in *;
+        try (apply Hl; lia); auto.
+      assert (length ts2 <= length ts1)%nat by (apply Hl; lia). lia.
+    + intros p lhs ts Hn. cbn [pratt_loop].
+      destruct ts as [|cur rest]; [cbn; lia|].
+      destruct (p <? precedence_for_current cur rest); [|cbn [shorter]; lia].
+      pose proof (infix_shorter n (parse_expr n) lhs cur rest IHe) as Hi.
+      cbn [length] in *.
+      destruct (parse_infix (parse_expr n) lhs (cur :: rest)) as [[l' ts']| |];
+        cbn [bind shorter] in *; try (apply Hi; lia); auto.
+      assert (H1 : (length ts' <= S (length rest))%nat) by (apply Hi; lia).
+      destruct (Nat.eqb (length ts') (S (length rest))) eqn:E; [cbn [shorter]; lia|].
+      apply Nat.eqb_neq in E.
+      pose proof (IHl p l' ts') as Hl.
+      destruct (pratt_loop n p l' ts') as [[e ts2]| |]; cbn [shorter] in *;
+        try (apply Hl; lia); auto.
+      assert (length ts2 <= length ts')%nat by (apply Hl; lia). lia.
+Qed.
+
+Theorem parse_model_total : forall ts, parse_model ts <> OutOfFuel.
+Proof.
+  intros ts H. unfold parse_model in H.
+  pose proof (proj1 (fuel_enough (fuel_for ts)) LOWEST ts) as Hs.
+  rewrite H in Hs. apply Hs. unfold fuel_for. lia.
+Qed.
+
+Lemma single_fuel : forall r : res rose, r <> OutOfFuel -> single r <> OutOfFuel.
+Proof. intros [x| |] H; cbn; congruence. Qed.
+
+Lemma app_res_fuel : forall a b0 : res (list rose),
+  a <> OutOfFuel -> b0 <> OutOfFuel -> app_res a b0 <> OutOfFuel.
+Proof. intros [x| |] [y| |] Ha Hb; cbn; congruence. Qed.
+
+Lemma explain_fuel : forall x,
+  explain x <> OutOfFuel /\ m_ops_concat x <> OutOfFuel /\
+  (forall op, m_ops_logical op x <> OutOfFuel).
+Proof.
+  induction x as [n p|v p|o y IHy|opx l IHl r IHr par].
+  - split; [discriminate|split; [discriminate|intros op; discriminate]].
+  - split; [discriminate|split; [discriminate|intros op; discriminate]].
+  - destruct IHy as (Hy & _ & _).
+    assert (E : explain (EUnary o y) <> OutOfFuel).
+    { cbn [explain]. destruct o.
+      - destruct y as [n p|v p|o' z|op l r par];
+          try (destruct (explain _); cbn in *; congruence).
+        destruct p; [discriminate|].
+        unfold explain_negated_literal. destruct v;
+          repeat match goal with |- context [if ?c then _ else _] => destruct c end; discriminate.
+      - destruct (explain y); cbn in *; congruence. }
+    split; [exact E|split; [apply single_fuel, E|intros op; apply single_fuel, E]].
+  - destruct IHl as (Hl & Cl & Ll). destruct IHr as (Hr & Cr & Lr).
+    assert (E : explain (EBinary opx l r par) <> OutOfFuel).
+    { rewrite explain_binary.
+      destruct (bytes_eqb opx s_concat).
+      - pose proof (app_res_fuel _ _ Cl Cr) as H.
+        destruct (app_res (m_ops_concat l) (m_ops_concat r)); cbn; congruence.
+      - destruct (bytes_eqb opx s_OR || bytes_eqb opx s_AND).
+        + pose proof (app_res_fuel _ _ (Ll opx) (Lr opx)) as H.
+          destruct (app_res (m_ops_logical opx l) (m_ops_logical opx r)); cbn; congruence.
+        + destruct (explain l); cbn; try congruence. destruct (explain r); cbn; congruence. }
+    split; [exact E|split].
+    + cbn [m_ops_concat]. destruct (bytes_eqb opx s_concat);
+        [apply app_res_fuel; assumption|apply single_fuel, E].
+    + intros op. rewrite m_ops_logical_bin. destruct (bytes_eqb opx op && negb par);
+        [apply app_res_fuel; [apply Ll|apply Lr]|apply single_fuel, E].
+Qed.
+
+Theorem explain_model_total : forall ts, explain_model (parse_model ts) <> OutOfFuel.
+Proof.
+  intros ts H. pose proof (parse_model_total ts) as Hp. unfold explain_model in H.
+  destruct (parse_model ts) as [[e rest]| |]; cbn [bind] in H; try discriminate; [|contradiction].
+  pose proof (proj1 (explain_fuel e)) as He.
+  destruct (explain e); cbn [bind] in H; try discriminate. contradiction.
 Qed.
